@@ -56,13 +56,6 @@ theorem log_add_api (ko : Rt.KeyOps K B) (lc : Nat → Nat → Nat → Nat × Na
   · unfold Full.log16_add; simp only [FullLog.add_log16_full]
   · unfold Full.log8_add; simp only [FullLog.add_log8_full]
 
-theorem log_merge_api {cell : Nat → Nat → Nat} {A Bt : Tab} {width depth mc maxc nr : Nat} {nar onar : Nat → Nat} :
-    Full.log16_merge cell A Bt width depth mc maxc nr nar onar = FullLog.mergeLogSpecK cell A Bt width depth nar onar ∧
-    Full.log8_merge cell A Bt width depth mc maxc nr nar onar = FullLog.mergeLogSpecK cell A Bt width depth nar onar := by
-  constructor
-  · unfold Full.log16_merge; simp only [FullLog.merge_log16_full]
-  · unfold Full.log8_merge; simp only [FullLog.merge_log8_full]
-
 theorem log_add_ngram_api (ko : Rt.KeyOps K B) (lc : Nat → Nat → Nat → Nat × Nat) (T : Tab) (nar buckets : Nat → Nat)
     (width depth maxc nr rp : Nat) (key : K) (n : Nat) :
     Full.log16_add_ngram ko lc rp T nar buckets width depth maxc nr key n = Full.add_ngram_log16 ko lc T nar buckets width depth maxc nr rp key n ∧
